@@ -404,7 +404,7 @@ func inRegexFindSubmatch(e *Exec, fn *ssa.Function, a []Value) Value {
 	elemT := byteSliceT.Underlying().(*types.Slice).Elem()
 	out := e.newSlice(elemT, ng, ng, "FindSubmatch")
 	for g := 0; g < ng; g++ {
-		lo, hi := res.val[2*g], res.val[2*g+1]
+		lo, hi := e.narrow(res.val[2*g]), e.narrow(res.val[2*g+1])
 		set := c.And(res.set[2*g], res.set[2*g+1])
 		if !e.branch(set) {
 			out.Arr.Elems[g] = e.zero(elemT)
